@@ -4,7 +4,7 @@
 (* overlap schedule realised on the registered codecs; for every call the  *)
 (* digests of its output frames in each repetition and the digests of the  *)
 (* same call run alone.  Event "race": one report of the Go race detector  *)
-(* (the two access sites).  Accepted: no race event, every concurrent      *)
+(* (the writing call site(s)).  Accepted: no race event, every concurrent      *)
 (* result equals the solo result, no error.                                *)
 (***************************************************************************)
 EXTENDS Integers, Sequences, TLC, Json
@@ -31,7 +31,7 @@ Step ==
           ELSE PrintT("@@REJECT|" \o ToString(E.scn) \o "|" \o ToString(E.k) \o "|C18/solo-mismatch/codec " \o FirstBad.ts \o "/" \o FirstBad.op \o " " \o FirstBad.mode
                       \o "|" \o ToString(E.ncalls) \o " calls, GOMAXPROCS " \o ToString(E.gomaxprocs) \o " errs=" \o ToString(FirstBad.errs)) /\ UNCHANGED nacc
      ELSE IF E.ev = "race"
-     THEN PrintT("@@REJECT|" \o ToString(E.scn) \o "|" \o ToString(E.k) \o "|C18/race/" \o E.site1 \o " <-> " \o E.site2 \o "|" \o E.kinds) /\ UNCHANGED nacc
+     THEN PrintT("@@REJECT|" \o ToString(E.scn) \o "|" \o ToString(E.k) \o "|C18/race/write in " \o E.writers \o "|" \o E.detail) /\ UNCHANGED nacc
      ELSE UNCHANGED nacc
 Finish == l = Len(Tr) + 1 /\ PrintT("@@ACCEPT|" \o ToString(nacc)) /\ PrintT("@@DONE|" \o ToString(Len(Tr))) /\ l' = l + 1 /\ UNCHANGED nacc
 TraceSpec == Init /\ [][Step \/ Finish]_tvars
